@@ -15,6 +15,12 @@ import (
 const (
 	acpiRev1     uint8 = 0
 	acpiRev2Plus uint8 = 2
+
+	// extRSDPLength is the size of the ACPI 2.0+ RSDP as laid out by the
+	// firmware; its extended checksum covers exactly these bytes. The Go
+	// compiler pads table.ExtRSDPDescriptor to 40 bytes, so unsafe.Sizeof
+	// must not be used for this purpose.
+	extRSDPLength uint32 = 36
 )
 
 var (
@@ -233,7 +239,7 @@ checkNextBlock:
 		// System uses ACPI revision > 1 and provides an extended RSDP
 		// which can be accessed at the same place.
 		rsdp2 = (*table.ExtRSDPDescriptor)(unsafe.Pointer(curPtr))
-		if !validTable(curPtr, uint32(unsafe.Sizeof(*rsdp2))) {
+		if !validTable(curPtr, extRSDPLength) {
 			continue
 		}
 
